@@ -365,11 +365,15 @@ def sky_region_spec(rng, cls=None, frame=None, lon=None, lat=None, size_deg=None
 
 META_VOCAB = {'label': ['src 1', 'A'], 'tag': [['g1'], ['g1', 'g2'], ['zeta', 'alpha', 'mid']], 'comment': ['hi there'], 'name': ['n1'],
               'frame': ['ICRS'], 'range': [[1, 2]], 'corr': [['I', 'Q']], 'type': ['reg'], 'text': ['some text'],
-              'source': [1], 'background': [0], 'select': [1], 'component': [3]}
+              'source': [1], 'background': [0], 'select': [1], 'component': [3],
+              # the DS9 / CRTF bookkeeping entries of the vocabulary: they describe how a GUI may treat the region and never its geometry
+              'rotate': [0, 1], 'edit': [0, 1], 'move': [0, 1], 'delete': [0, 1], 'fixed': [0, 1], 'highlite': [0, 1], 'textrotate': [0, 1],
+              'veltype': ['RADIO'], 'restfreq': ['1.42GHz']}
 VISUAL_VOCAB = {'color': ['red', '#00ff00', 'blue'], 'linewidth': [1, 2.5], 'fontname': ['helvetica'], 'fontsize': [10, 12],
                 'fontweight': ['bold'], 'fontstyle': ['normal', 'italic'], 'symbol': ['circle', 'x'], 'symsize': [11],
                 'dashlist': [[8, 3]], 'dash': [1], 'fill': [0, 1], 'textangle': [30.0], 'facecolor': ['green'],
-                'edgecolor': ['k'], 'linestyle': ['--'], 'marker': ['+'], 'markersize': [5], 'rotation': [15.0]}
+                'edgecolor': ['k'], 'linestyle': ['--'], 'marker': ['+'], 'markersize': [5], 'rotation': [15.0],
+                'symthick': [2], 'labelpos': ['top'], 'labelcolor': ['red'], 'markeredgewidth': [1.5], 'textrotate': [0, 1]}
 
 
 def rich_meta(rng, include=None, nmax=4):
